@@ -122,11 +122,19 @@ def gen_plan(seed, tier):
       st["outp"] = r.wpick([(3, r.randint(1, nports)), (1, W.OFPP_FLOOD),
                             (1, nports + 1)])
       st["inp"] = r.wpick([(3, W.OFPP_NONE), (1, r.randint(1, nports))])
-      st["buffer"] = r.wpick([(5, None), (2, r.pick([1, 2, 99, 0x7fffffff]))])
+      st["buffer"] = r.wpick([(5, None), (2, r.pick([1, 2, 99, 0x7fffffff])),
+                              (2, "live")])
       if st["buffer"] is None and r.chance(0.15):
         # an action of a type the switch cannot know
         st["badact"] = r.pick([12, 100, 0x7fff, 0xffff])
-      if st["buffer"] is not None and r.chance(0.15):
+      if st["buffer"] == "live":
+        # the id of a packet the switch is holding right now (from the most
+        # recent packet_in not yet used); half of these carry an action the
+        # switch cannot know, after one it can
+        if r.chance(0.5):
+          st["badact"] = r.pick([12, 100, 0x7fff, 0xffff])
+          st["badpos"] = r.pick([0, 1])
+      if st["buffer"] not in (None, "live") and r.chance(0.15):
         # request near the 16-bit length limit (a very long action list):
         # the error about it must still arrive
         st["nact"] = (r.pick([65535, 65524, 65523, 65000, 32768]) - 16) // 8
@@ -248,6 +256,7 @@ def _drive(sim, world, plan, known, hit_known):
     expect.append(d)
 
   pending_flush = False
+  used_buffers = set()
   for idx, st in enumerate(plan["steps"]):
     op = st["op"]
     sim.ch.reseed(mix(plan["seed"], "step", idx))
@@ -352,13 +361,36 @@ def _drive(sim, world, plan, known, hit_known):
         E("error", xid, etype=W.ET_FLOW_MOD_FAILED, code=W.FMFC_BAD_COMMAND,
           req=raw, kf="C13-flowmod-badcmd-nameerror")
     elif op == "packet_out":
+      live = False
+      if st["buffer"] == "live":
+        sim.drain()
+        pending_flush = False
+        world.pump()
+        ids = [d["buffer_id"] for d in world.rx_frames
+               if d["type"] == W.PACKET_IN and "malformed" not in d
+               and d.get("buffer_id") not in (None, W.NO_BUFFER)
+               and d["buffer_id"] not in used_buffers]
+        if ids:
+          st = dict(st, buffer=ids[-1])
+          used_buffers.add(ids[-1])
+          live = True
+          sim.probes["packet_out_live_buffer"] += 1
+        else:
+          # (none held: an id that cannot exist, and no second thing wrong
+          # with the request, so that the one error is predictable)
+          st = dict(st, buffer=0x7ffffff0, badact=None)
+      if st["buffer"] is not None:
+        used_buffers.add(st["buffer"])   # (also ids named by chance)
       data = _frame(0) if st["buffer"] is None else b""
       if st.get("nact"):
         sim.probes["huge_refused_packet_out"] += 1
       bid = W.NO_BUFFER if st["buffer"] is None else st["buffer"]
       acts = [("output", st["outp"], 0)] * st.get("nact", 1)
       if st.get("badact") is not None:
-        acts = [("raw", struct.pack("!HHL", st["badact"], 8, 0x2320))] + acts
+        bad = ("raw", struct.pack("!HHL", st["badact"], 8, 0x2320))
+        acts = acts + [bad] if st.get("badpos") else [bad] + acts
+        if live:
+          sim.probes["bad_action_on_live_buffer"] += 1
       raw = W.enc_packet_out(xid, bid, st["inp"], acts, data)
       world.send(raw)
       if st.get("badact") is not None:
@@ -369,7 +401,9 @@ def _drive(sim, world, plan, known, hit_known):
         # no buffer with that id can exist unless a frame step created it;
         # the C13 model does not track buffers, so only demand an error when
         # the id is certainly unknown (> max_buffers)
-        if st["buffer"] > cfg["max_buffers"]:
+        if live:
+          pass            # a held packet: nothing to complain about
+        elif st["buffer"] > cfg["max_buffers"]:
           E("error", xid, etype=W.ET_BAD_REQUEST, codes=(W.BRC_BUFFER_UNKNOWN,
                                                          W.BRC_BUFFER_EMPTY),
             req=raw, kf="C13-unknown-buffer-silence")
